@@ -1,7 +1,7 @@
 """Reusable rule templates (DESIGN.md §5)."""
 from facts import field_reads, norm, short
 
-POS_TYPES = ("nitrogql_ast::base::Pos",)
+POS_TYPES = ("nitrogql_ast::base::Pos", "nitrogql_ast::base::Keyword")
 
 
 def semantic_fields(adt, exempt=()):
@@ -70,3 +70,79 @@ def index_of(fn, node):
         if n is node:
             return i
     return -1
+
+
+LOSSY_OR_REORDERING = {
+    # iterator adaptors that drop, duplicate or reorder elements
+    "filter", "filter_map", "skip", "skip_while", "take", "take_while", "step_by", "rev", "dedup",
+    "dedup_by", "dedup_by_key", "unique", "unique_by", "sorted", "sorted_by", "sorted_by_key",
+    "map_while", "cycle", "nth", "last", "peekable_skip",
+    # in-place operations on a Vec/slice
+    "sort", "sort_by", "sort_by_key", "sort_unstable", "sort_unstable_by", "sort_unstable_by_key",
+    "sort_by_cached_key", "reverse", "swap", "swap_remove", "retain", "retain_mut", "truncate",
+    "drain", "remove", "pop", "clear", "rotate_left", "rotate_right", "insert", "split_off",
+}
+
+
+def enclosing_contexts(fn, idx):
+    """list (innermost first) of control contexts around nodes()[idx]:
+       ("arm", match_node, arm_node) | ("if-then"/"if-else", if_node) | ("loop", loop_node) |
+       ("closure", closure_node) | ("let-else", let_node)"""
+    acc = fn.nodes()
+    out = []
+    child = idx
+    p = acc[idx][1]
+    while p >= 0:
+        n = acc[p][0]
+        k = n.get("k")
+        c = acc[child][0]
+        if k == "Arm":
+            # find the match
+            pp = acc[p][1]
+            while pp >= 0 and acc[pp][0].get("k") != "Match":
+                pp = acc[pp][1]
+            in_body = _contains(n.get("body"), c)
+            if in_body:
+                out.append(("arm", acc[pp][0] if pp >= 0 else None, n))
+        elif k == "If":
+            if _contains(n.get("then"), c):
+                out.append(("if-then", n))
+            elif "else" in n and _contains(n.get("else"), c):
+                out.append(("if-else", n))
+        elif k == "Loop":
+            out.append(("loop", n))
+        elif k == "Closure":
+            out.append(("closure", n))
+        elif k == "Let" and "els" in n and _contains(n["els"], c):
+            out.append(("let-else", n))
+        child = p
+        p = acc[p][1]
+    return out
+
+
+def _contains(root, node):
+    if root is None:
+        return False
+    if root is node:
+        return True
+    st = [root]
+    while st:
+        x = st.pop()
+        if x is node:
+            return True
+        if isinstance(x, dict):
+            st.extend(v for v in x.values() if isinstance(v, (dict, list)))
+        elif isinstance(x, list):
+            st.extend(v for v in x if isinstance(v, (dict, list)))
+    return False
+
+
+def method_chain(expr):
+    """method names along a receiver chain, outermost last: a.b().c() -> (base expr, [b, c] nodes)"""
+    chain = []
+    e = expr
+    while e.get("k") == "MethodCall":
+        chain.append(e)
+        e = e["recv"]
+    chain.reverse()
+    return e, chain
